@@ -35,4 +35,10 @@ def check(model, tier):
     structure.r15_2_simplification_shapes(ctx)
     structure.r14_5_noop_identity(ctx)
     run.assume("identity of locked nodes in returned trees also relies on C09: no function copies or mutates relations")
+    from ..rules import purity as _purity
+
+    _purity.r_no_value_keyed_cache(ctx, "R15.3")
+    from ..rules import structure as _structure
+
+    _structure.r14_9_engine_plumbing(ctx, rule="R15.4")
     return run
